@@ -1104,6 +1104,113 @@ def check_C10(cx):
                   "distinct = distinct (options, line)")
 
 
+SITE_LEMMAS = {
+    # function -> Lean statements that bound / justify its memory accesses
+    "filter_assembly_str_fsa": "C09.filtered_length (filter_str[100]); reads of unfiltered_str stop at NUL (list end)",
+    "str_to_instr": "C09.filtered_length; Lemmas.lineLen_first/lineLen_alone (ch_pos stays inside the text)",
+    "line_to_instr": "C09.filtered_length (asm_str[100]), C09.opdtype_length (opd_type[5]); opd[i] with literal i < 4",
+    "check_registers": "literal indices 0..2 of opd[4]", "all_opd_str_to_reg": "literal bound FOURTH_OPERAND = 3 of opd[4]",
+    "instr_tok": "C09.instruction_length (instruction[15]); C09.instrTok_failOnly (strtok_r result not NULL)",
+    "operand_tok": "C09.operandTok_failOnly (strtok_r result not NULL); recursion stops at opd_pos = 3 (opd[4])",
+    "check_operand_type": "opd[opd_pos], opd_pos <= 3", "check_for_keyword": "clearstring stays inside the matched keyword prefix (Impl.clearAfterBlanks)",
+    "clearstring": "length argument = length of the matched keyword", "imm_tok": "C09.immTok_failOnly; imme[2] only read when imme[1] != NUL",
+    "mem_tok": "opd[opd_pos].sib via copy_index_reg (C09.indexreg_length)", "get_mod_disp": "no array access",
+    "find_add_mem": "indices i-2..i+1 with 1 <= i < len: inside the NUL-terminated string (Impl.findAddMemGo guards i >= 2)",
+    "find_mem_const": "indices i+1..i+3 read only behind non-NUL characters (short-circuit), Impl.findMemConstGo",
+    "get_reg_str": "C09.regstr_length (str[6])", "copy_index_reg": "C09.indexreg_length (sib[6])",
+    "get_index_reg": "mem[len-1] with len >= 1; mem[j+1], mem[j+2] behind a '*' that is not the last character",
+    "check_sib_disp": "no array access", "get_operand_type": "reads up to the first non-blank or NUL", "find_reg": "REG_TABLE scan stops at the empty sentinel",
+    "str_to_reg": "reg[1], reg[end] inside the NUL-terminated token", "strlen_int": "reads up to NUL", "process_neg_disp": "no array access",
+    "get_opcode_offset": "literal opd indices", "get_opd_format": "C09.letter_index/kind_letter (index table), scan stops at opd_error sentinel",
+    "str_to_instr_key": "C09.letter_index (index table), scan stops at the NA sentinel row",
+    "nop_padding": "C09.nop_index (FIXED_NOP_LENGTH[len-1], 1 <= len <= 11); writes inside the reserve (C07)",
+    "assemble_within_reserve": "code[64]: assemble_asm emits at most 42 bytes (structural bound, checked under ASan); memcpy of <= 20 bytes into the reserve (C07)",
+}
+
+
+def check_C09(cx):
+    thms = ["AL.Properties.C09." + t for t in ["no_ub_line", "lex_resolve_failOnly", "operandTok_failOnly", "instrTok_failOnly", "immTok_failOnly",
+            "emitOne_failOnly", "filtered_length", "instruction_length", "regstr_length", "indexreg_length", "opdtype_length", "nop_index",
+            "letter_index", "kind_letter", "table_slots_bound", "assembleSlots_length"]] + ["AL.Lemmas.items_eq_itemsL", "AL.Lemmas.assembleLine_local"]
+    info = stage_proofs(cx, "AL.Properties.C09", thms)
+    impl = build_impl(cx)
+    if not (info and impl):
+        return finish(cx, "")
+    # T4: the memory-access sites of the parser are exactly the audited ones
+    import sites as sites_mod
+    cur = sites_mod.inventory(alv.REPO, cache_dir=alv.CACHE)
+    audited = json.load(open(os.path.join(alv.HERE, "gen", "sites_audited.json")))["sites"]
+    new_sites = sorted(set(cur) - set(audited))
+    gone = sorted(set(audited) - set(cur))
+    unmapped = sorted({x.split(":")[1] for x in cur if x.split(":")[0] != "assemblyline.c" and x.split(":")[0] in
+                       ("parser.c", "tokenizer.c", "reg_parser.c", "instr_parser.c") and x.split(":")[1] not in SITE_LEMMAS
+                       and not x.split(":")[1].startswith(("debug_", "check_len", "assemble"))})
+    cx.oblige("T4 site inventory: %d memory-access sites in the parser/encoder = audited list" % len(cur),
+              not new_sites and not gone, json.dumps({"new": new_sites[:20], "gone": gone[:20]}))
+    cx.oblige("T4 every parser function with memory accesses is mapped to a bounding lemma", not unmapped, json.dumps(unmapped))
+    g = cases.Gen(cx.seed, info["tables"])
+    r = g.r
+    # T2 under ASan+UBSan: malformed / garbage / boundary-length stream
+    n = 120000 if cx.tier == "quick" else 1500000
+    lines = []
+    for _ in range(n):
+        k = r.random()
+        if k < 0.45:
+            l = g.mutate(g.valid_line())
+        elif k < 0.6:
+            l = g.garbage()
+        elif k < 0.75:
+            l = g.long_line().encode("latin1")
+        elif k < 0.85:
+            l = g.anyform_line().encode("latin1")
+        else:
+            l = g.line()
+        l = bytes(x for x in l if x != 0)
+        lines.append((r.choice(cases.OPTS), l))
+    # line lengths around the filter limit, many operands, many brackets
+    for base in ["mov rax, ", "mov [rax+", "push ", "vpaddb ymm1, ymm2, [rax+", "add qword [", "jmp ", "mov rax, [rbx+rcx*2+"]:
+        for target in range(90, 112):
+            filt = len(base.replace(" ", ""))
+            for tail in ["5", "0x5", "]", "],5", "1]", "rbx", ",rbx,rcx,rdx,rsi,rdi"]:
+                pad = max(0, target - filt - len(tail))
+                lines.append((14, (base + "0" * pad + tail).encode()))
+    for k in range(1, 9):
+        lines.append((14, ("mov " + ",".join(["rax"] * k)).encode()))
+        lines.append((14, ("mov " + ",".join(["[rax]"] * k)).encode()))
+        lines.append((14, ("mov rax, " + "[" * k + "rbx" + "]" * k).encode()))
+    ops, out = tie_lines(cx, impl, lines, "C09 malformed/garbage/boundary stream under ASan+UBSan")
+    # T3 under ASan: histories incl. chunk fitting near the buffer end (padding + instruction > reserve)
+    hists = gen_histories(g, 300 if cx.tier == "quick" else 5000)
+    longs = [b"mov qword [r8d+r9d*8+0x12345678], 0x12345678", b"mov rax, 0x1122334455667788", b"imul r9, [r10d+r11d*8+0x12345678], 0x12345678"]
+    for nbuf in range(20, 60):
+        for c in (8, 16, 24):
+            for lead in (0, 1, 4):
+                prog = b"\n".join([b"add rax, 1"] * lead + [longs[(nbuf + c) % 3], longs[(nbuf + lead) % 3]])
+                hists.append(["N 0 %d cc" % nbuf, "K 0 %d" % c, "A 0 %s" % cases.hexs(prog), "G 0", "M 0", "F 0"])
+    ops2, out2 = tie_api_mod_lf(cx, impl, hists, "C09 API histories under ASan+UBSan with guard regions")
+    for b in guard_violations(ops2, out2):
+        cx.violations.append({"kind": "guard", **b})
+    if cx.tier == "thorough":
+        # uninitialised reads: valgrind memcheck over a sample of the stream (plain build)
+        plain = build_impl(cx, flavour="plain")
+        sample = ["L %d %s" % (o, cases.hexs(l)) for o, l in lines[:20000]]
+        p = subprocess.run(["valgrind", "-q", "--error-exitcode=9", plain], input=("\n".join(sample) + "\n").encode(),
+                           stdout=subprocess.DEVNULL, stderr=subprocess.PIPE, timeout=3000)
+        cx.oblige("valgrind memcheck: no uninitialised / invalid access on 20000 lines", p.returncode == 0, p.stderr.decode("latin1")[-1500:])
+        if p.returncode != 0:
+            cx.violations.append({"kind": "valgrind", "stderr": p.stderr.decode("latin1")[-1500:]})
+    rcs = collections.Counter(o.split()[0] for o in out)
+    cx.nontrivial.update(lines)
+    cx.cov["samples"] = [[o, l.decode("latin1")] for o, l in lines[:4]] + [hists[-1]]
+    cx.dist = {"lines": len(lines), "result_codes": dict(rcs), "histories": len(hists), "sites": len(cur),
+               "line_length_histogram": dict(collections.Counter(min(len(l) // 20 * 20, 200) for _, l in lines))}
+    cx.assumptions.append("uninitialised reads and UB classes the model cannot express are observed by ASan/UBSan (and valgrind in the thorough tier), not proved")
+    return finish(cx, "T4: clang-AST inventory of every array subscript / dereference / libc string call in the parser and encoder must equal the "
+                  "audited list; T2: %d seeded malformed, garbage (all byte values), boundary-length (90..111 significant characters) and many-operand "
+                  "lines under ASan+UBSan, compared with the model; T3: random API histories and chunk fitting near the end of caller buffers with guard "
+                  "regions under ASan; distinct = distinct (options, line)" % len(lines))
+
+
 def history_around(ops, idx):
     """the ops of the history that contains op number idx (a history starts at its first N op
     after an F op or at the beginning)"""
@@ -1116,7 +1223,7 @@ def history_around(ops, idx):
     return ops[start:end + 1]
 
 
-CHECKS = {"C12": check_C12, "C07": check_C07, "C06": check_C06, "C13": check_C13, "C14": check_C14, "C08": check_C08, "C15": check_C15, "C16": check_C16, "C10": check_C10}
+CHECKS = {"C12": check_C12, "C07": check_C07, "C06": check_C06, "C13": check_C13, "C14": check_C14, "C08": check_C08, "C15": check_C15, "C16": check_C16, "C10": check_C10, "C09": check_C09}
 
 
 def run_check(prop, tier, seed):
